@@ -44,7 +44,7 @@ func init() {
 		Assume:  []string{"schedules are those the Go scheduler produces under randomised pressure on the available cores; a race needing a schedule never produced is missed", "race detector sees only accesses that execute"},
 		N:       tierN(8, 34),
 		Batch:   func(string) int64 { return 1 },
-		Timeout: func(t string) int { return map[string]int{"quick": 600, "thorough": 1800}[t] },
+		Timeout: func(t string) int { return map[string]int{"quick": 1200, "thorough": 2400}[t] },
 		Floor:   tierN(3, 10),
 		Race:    true,
 		Run:     runC19,
